@@ -55,7 +55,9 @@ def u32(n):
 
 
 HOSTILE = [list(b'a"b'), list(b"back\\slash"), [1, 2, 31], [0x7f], [0xc3, 0xa9], [0xff, 0xfe, 0x80],
-           list(b"</script>"), [0xe2, 0x80, 0xa8], list(b"%d%s%%"), [0], list(b"plain")]
+           list(b"</script>"), [0xe2, 0x80, 0xa8], list(b"%d%s%%"), [0], list(b"plain"),
+           # text that LOOKS like an escape sequence, an entity or a surrogate: it is just text
+           list(b"lab \\u003cspare\\u003e"), list(b"Q\\u0026A"), list(b"&lt;&amp;"), list(b"\\n\\t\\\\"), list(b"\\ud800x"), list(b"a\\\"b")]
 
 
 class Gen:
@@ -201,9 +203,9 @@ class Gen:
             for e in ids[k:k + 6]:
                 t = self.model[e]
                 if t in ("string", "octetArray"):
-                    ln = VARLEN if (self.proto == "ipfix" and variant == "own") else {"own": 5, "reduced": 3, "oversized": 9}[variant]
+                    ln = VARLEN if (self.proto == "ipfix" and variant == "own") else {"own": 5, "reduced": 3, "half": 1, "oversized": 9}[variant]
                 elif t in SIZES:
-                    ln = {"own": SIZES[t], "reduced": max(1, SIZES[t] - 1), "oversized": SIZES[t] + 2}[variant]
+                    ln = {"own": SIZES[t], "reduced": max(1, SIZES[t] - 1), "half": max(1, SIZES[t] // 2), "oversized": SIZES[t] + 2}[variant]
                 else:
                     ln = 4
                 fields.append({"e": e, "l": ln, "pen": 0, "t": t})
